@@ -339,6 +339,7 @@ def unit_containers(unit):
         ([1, 2], [1, 3]), ([1, 2], [2, 1]), ([1, 2], [1, 2, 2]), ([[1], [2]], [[1], [3]]), ([], [None]),
         ((1, 2), (1, 3)), ((1, 2), (2, 1)), ((1, (2, 3)), (1, (2, 4))),
         ({1, 2}, {1, 3}), (frozenset({1, 2}), frozenset({1, 3})), ({1}, {1, 2}),
+        ({1, 4}, {2, 3}), (frozenset({8, 9}), frozenset({7, 10})), ({"a", "d"}, {"b", "c"}),      # same size, and the members' hashes may add up alike
         (b"ab", b"ac"), (b"ab", b"ba"), (bytearray(b"ab"), bytearray(b"ac")),
         (Fraction(1, 2), Fraction(1, 3)), (Decimal("1.5"), Decimal("1.6")), (date(2020, 1, 1), date(2020, 1, 2)), (datetime(2020, 1, 1, 1), datetime(2020, 1, 1, 2)),
         (1 + 2j, 1 + 3j), ("ab", "ba"), (range(3), range(4)),
@@ -391,6 +392,50 @@ def unit_containers(unit):
                             agg.violation(V("fingerprint.containers", "component-change-not-noticed-table", case))
                         else:
                             agg.outcomes["change-noticed"] += 1
+    # a mutable cell changed IN PLACE and then written back (v[1] += [9] stores the very same object again): the write is not a no-op
+    def mutate(x):
+        if isinstance(x, list):
+            x.append(99)
+        elif isinstance(x, dict):
+            x["zz"] = 99
+        elif isinstance(x, set):
+            x.add(99)
+        elif isinstance(x, bytearray):
+            x.extend(b"!")
+        else:
+            return False
+        return True
+    import copy
+    for old in ([1, 2], {"k": 1}, {1, 2}, bytearray(b"ab"), [[1], [2]]):
+        for n in (1, 2, 3):
+            for pos in range(n):
+                for through in ("vector", "column-view", "slice-write-back"):
+                    for primed in (True, False):
+                        agg.evals += 1; agg.transitions += 3; agg.states += 1; agg.nontrivial += 1; agg.compared += 1
+                        case = {"cell": repr(old), "length": n, "position": pos, "through": through, "fingerprint_cached_before": primed,
+                                "history": ["fingerprint()", "change the cell object in place", "store the same object back", "fingerprint()"]}
+                        try:
+                            vals = [7] * n
+                            vals[pos] = copy.deepcopy(old)
+                            t = Table([Vector(list(vals), name="a"), Vector(list(range(n)), name="b")])
+                            v = Vector(list(vals)) if through != "column-view" else t["a"]
+                            if primed:
+                                v.fingerprint(); t.fingerprint()
+                            cell = v._underlying[pos]
+                            mutate(cell)
+                            if through == "slice-write-back":
+                                v[pos:pos + 1] = [cell]
+                            else:
+                                v[pos] = cell
+                            want = Vector(copy.deepcopy(list(v._underlying))).fingerprint()
+                            got = v.fingerprint()
+                        except Exception as e:
+                            agg.skipped["container-cell-refused-" + type(e).__name__] += 1
+                            continue
+                        if got != want:
+                            agg.violation(V("fingerprint.containers", "stale-after-storing-a-changed-object-back", case))
+                        else:
+                            agg.outcomes["fingerprints-current"] += 1
     return agg
 
 
